@@ -7,7 +7,7 @@ ENV = dict(os.environ, GOFLAGS="-mod=mod", GOPROXY="off", GOSUMDB="off", GOTOOLC
 def sh(cmd, cwd=None, timeout=3600):
     p = subprocess.run(cmd, shell=True, cwd=cwd, env=ENV, capture_output=True, text=True, timeout=timeout)
     return p.returncode, p.stdout + p.stderr
-SCR = "/tmp/selftest_repo"
+SCR = os.environ.get("SELFTEST_SCR", "/tmp/selftest_repo")
 def fresh():
     sh(f"rm -rf {SCR} && mkdir -p {SCR} && git -C /repo archive HEAD | tar -x -C {SCR} && cd {SCR} && git init -q && git add -A && git -c user.email=a@b -c user.name=x commit -qm base")
 PASS_CHECKS = {"rename_locals_base_score": ["C01", "C06"], "extract_helper_exploitability": ["C01", "C12"], "severity_if_chain": ["C06"], "reorder_map_literal": ["C20", "C07"],
